@@ -203,11 +203,11 @@ def _roundtrip(ctx, f, rep, ext, d, keys, sub_expected=None, tag="w"):
             msg.append(f"nodes {o.n} instead of {n}")
         if o.meshunit != f.mesh.region.units[0]:
             msg.append(f"meshunit {o.meshunit!r} instead of {f.mesh.region.units[0]!r}")
-        if np.any(np.abs(np.array(o.pmin) - pmin) > 1e-12 * scale) or np.any(np.abs(np.array(o.pmax) - pmax) > 1e-12 * scale):
+        if C.gt(np.abs(np.array(o.pmin) - pmin), 1e-12 * scale) or C.gt(np.abs(np.array(o.pmax) - pmax), 1e-12 * scale):
             msg.append(f"min/max {o.pmin}-{o.pmax} instead of {tuple(pmin)}-{tuple(pmax)}")
-        if np.any(np.abs(np.array(o.step) - step) > 1e-9 * step):
+        if C.gt(np.abs(np.array(o.step) - step), 1e-9 * step):
             msg.append(f"stepsize {o.step} instead of {tuple(step)}")
-        if np.any(np.abs(np.array(o.base) - (pmin + step / 2)) > 1e-9 * step + 1e-12 * scale):
+        if C.gt(np.abs(np.array(o.base) - (pmin + step / 2)), 1e-9 * step + 1e-12 * scale):
             msg.append(f"base {o.base} instead of {tuple(pmin + step / 2)}")
         if msg:
             ctx.fail("to_file.ovf/header-differs-from-mesh", "; ".join(msg), instance=_sel(ctx, *keys))
